@@ -2,3 +2,4 @@ import Generated.Fields
 import Generated.Shapes
 import Generated.Sites
 import Generated.Funcs
+import Generated.Fingerprints
